@@ -812,8 +812,11 @@ def handleSpec (name : String) (ins ans : List String) : String :=
         | _, _, _ => "FAIL unparsable"
       | _, _ => "FAIL unparsable"
     | "c05seq" =>
-      match (arg.splitOn ",").mapM unhex, parseSigEvs ans with
-      | some txs, some evs => optVerdict (Spec.oracleSigC05Seq txs evs)
+      match arg.splitOn ";", parseSigEvs ans with
+      | [rate, txs], some evs =>
+        match rate.toNat?, (txs.splitOn ",").mapM unhex with
+        | some rate, some txs => optVerdict (Spec.oracleSigC05Seq rate txs evs)
+        | _, _ => "FAIL unparsable"
       | _, _ => "FAIL unparsable"
     | "c05one" =>
       match parseScOuts ans with
